@@ -116,7 +116,7 @@ PROPS = {
     'C02': dict(suites=[bdd(['conn', 'quant', 'count', 'fp', 'model', 'retain', 'clean', 'mixed', 'wide']), text(['sym', 'evalx', 'evalid', 'evalwide', 'evalord'], exhaustive=False)]),
     'C01': dict(suites=[text(['tok', 'parse', 'eval', 'evalfp', 'evalwide', 'evalq', 'evalshadow', 'evallong', 'sym', 'evalid', 'evalcoll'])]),
     'C08': dict(suites=[text(['tok', 'parse', 'evallong', 'evalcoll'])]),
-    'C09': dict(suites=[text(['eval', 'evalwide', 'evalshadow', 'sym', 'evalcoll'])]),
+    'C09': dict(suites=[text(['eval', 'evalq', 'evalwide', 'evalshadow', 'sym', 'evalcoll'])]),
     'C10': dict(suites=[cli(['grid', 'order', 'size', 'shadow', 'names', 'coll', 'env', 'texts', 'random']), text(['sym'], exhaustive=False)]),
     'C11': dict(suites=[cli(['order', 'names', 'coll', 'random']), text(['evalord', 'evalid', 'sym'])]),
     'C12': dict(suites=[cli(['robustlib', 'robustbin', 'grid', 'size']), text(['evallong'], exhaustive=False), dbg(cli(['robustlib'])), dbg(text(['evallong', 'evalc']))]),
